@@ -349,6 +349,47 @@ theorem derived_sums_canonical {a b : Geonum F} (ha : a.angle.Inv) (hb : b.angle
       rw [hpn.1]; rcases hpbl with h | h <;> rw [h] <;> omega)
   exact ⟨hsub, hgeo, hrej⟩
 
+/-- (S) the scalar constructor's angle is canonical, whatever the bits of its argument (NaN included: the test just fails) -/
+theorem scalar_angle_inv (f : F) : (Geonum.scalar f).angle.Inv := by
+  unfold Geonum.scalar
+  simp only
+  split
+  · exact Angle.Equiv.inv (Angle.Equiv.symm new_zero_one) (inv_zero 0)
+  · exact Angle.Equiv.inv (Angle.Equiv.symm new_one_one) (inv_zero 2)
+
+/-- (S) the remaining Geonum operations return canonical angles whenever they return: inverse, `normalize`, quotient (all four
+    spellings are this function), `scale`, reflection, `meet`, blade steps — for every magnitude, finite or not -/
+theorem more_ops_canonical {a b : Geonum F} (f : F) (ha : a.angle.Inv) (hb : b.angle.Inv) :
+    (∀ r, a.inv = some r → r.angle.Inv) ∧ (∀ r, a.normalize = some r → r.angle.Inv) ∧
+    (∀ r, a.div b = some r → r.angle.Inv) ∧ (∀ r, a.divVV b = some r → r.angle.Inv) ∧
+    (a.scale f).angle.Inv ∧ (a.reflect b).angle.Inv ∧ (a.meet b).angle.Inv := by
+  have hneg : ∀ {x : Angle F}, x.Inv → x.negate.Inv := fun hx => inv_of_spec hx (negate_spec hx).2
+  have hdual : ∀ {x : Angle F}, x.Inv → x.dual.Inv := fun hx => inv_of_spec hx (dual_spec hx).2
+  have hinv : ∀ {g : Geonum F}, g.angle.Inv → ∀ r, g.inv = some r → r.angle.Inv := by
+    intro g hg r hr
+    unfold Geonum.inv at hr
+    split at hr
+    · cases hr
+    · cases hr; exact hneg hg
+  have hdiv : ∀ r, a.divVV b = some r → r.angle.Inv := by
+    intro r hr
+    unfold Geonum.divVV at hr
+    cases hi : b.inv with
+    | none => rw [hi] at hr; cases hr
+    | some i =>
+      rw [hi] at hr; simp only [Option.map_some, Option.some.injEq] at hr
+      rw [← hr]; exact geometricAdd_inv ha (hinv hb i hi)
+  refine ⟨hinv ha, ?_, hdiv, hdiv, geometricAdd_inv ha (scalar_angle_inv f), ?_, ?_⟩
+  · intro r hr
+    unfold Geonum.normalize at hr
+    split at hr
+    · cases hr
+    · cases hr; exact ha
+  · have h4inv : (Angle.new (four : F) one).Inv := Angle.Equiv.inv (Angle.Equiv.symm new_four_one) (inv_zero 8)
+    exact geometricAdd_inv (geometricAdd_inv hb hb) (geometricSub_inv h4inv (baseAngle_inv ha))
+  · have hw := (C10.wedge_angle (a := a.dual) (b := b.dual) (hdual ha) (hdual hb)).1
+    exact hdual hw
+
 /-- (S) `Angle / f64`, `pow` and `scale_rotate` return canonical angles -/
 theorem divF_pow_canonical {g : Geonum F} {k n f : F} {r : Angle F} (hg : g.angle.Inv) (hr : r.Inv)
     (hq : Fin (fdiv (fadd (fmul (FloatLike.ofNat g.angle.blade) (fdiv pi two)) g.angle.rem) k))
